@@ -160,6 +160,8 @@ class Column(ComponentSchema[PolarsCheckObjects]):
                 lazy=lazy,
                 inplace=inplace,
             )
+        if is_dataframe:
+            output = output.collect()
         return output
 
     @property
